@@ -41,16 +41,17 @@ pub fn u16_from_be_bytes(a: u8, b: u8) -> (r: u16)
 pub assume_specification<B, C> [std::ops::ControlFlow::<B, C>::is_break] (c: &std::ops::ControlFlow<B, C>) -> (r: bool)
     ensures r == (c is Break);
 
-// Vec<u8>::extend(&*slice) / Vec<u8>::extend([u8; N]) (R6): append, nothing else.
+// Vec<u8>::extend(&*slice) / Vec<u8>::extend([u8; N]) (R6): append, nothing else.  A Vec never holds more than isize::MAX
+// bytes (a larger request aborts with `capacity overflow`; allocation failure is outside the verified configuration).
 #[verifier::external_body]
 pub fn vec_extend_slice(v: &mut Vec<u8>, s: &[u8])
-    ensures final(v)@ == old(v)@ + s@, final(v)@.len() <= usize::MAX,
+    ensures final(v)@ == old(v)@ + s@, final(v)@.len() <= isize::MAX,
 {
     v.extend(s)
 }
 #[verifier::external_body]
 pub fn vec_extend_array<const N: usize>(v: &mut Vec<u8>, a: [u8; N])
-    ensures final(v)@ == old(v)@ + a@, final(v)@.len() <= usize::MAX, a@.len() == N,
+    ensures final(v)@ == old(v)@ + a@, final(v)@.len() <= isize::MAX, a@.len() == N,
 {
     v.extend(a)
 }
